@@ -98,6 +98,17 @@ def observe(c):
         pass
     del CAPPED[n0:]
     runs.append(["after_sibling_simulation", _drive(engine_build.engine(kind), script)[1], True])
+    # the same run asked for through simulate(): every script property handed over as a keyword argument (the reference completed
+    # within the harness's cap, so this loop ends too)
+    if not CAPPED:
+        import importlib
+        simmod = importlib.import_module("strengths.simulate")
+        kw = dict(time_step=script.time_step, t_max=script.t_max, sampling_policy=script.sampling_policy, sampling_interval=script.sampling_interval,
+                  rng_seed=script.rng_seed, units_system=script.units_system, init_state_processing=script.init_state_processing)
+        out_s = simmod.simulate(script.system, script.t_sample, engine=engine_build.engine(kind), **kw)
+        runs.append(["through_simulate", _clip([float(v) for v in out_s.t.value] + [float(v) for v in out_s.data.value]), True])
+        if out_s.script.rng_seed != script.rng_seed:
+            runs.append(["through_simulate_seed_kept", [float(out_s.script.rng_seed)], True])      # (never equal to the reference trajectory)
     # random partitions of the loop into iterate / iterate_n(k) / run(ms)
     for k in range(3):
         runs.append(["schedule_%d" % k, _drive(engine_build.engine(kind), script, sched_rng=random.Random(rng.randrange(2 ** 30)))[1], True])
